@@ -80,7 +80,11 @@ func FromPlain(content []byte) string {
 			break
 		}
 		if utf8.RuneStart(b) {
-			content = content[:i]
+			// Only an incomplete sequence is cut off; a complete last
+			// character is part of the text to be validated.
+			if !utf8.FullRune(content[i:]) {
+				content = content[:i]
+			}
 			break
 		}
 	}
